@@ -317,3 +317,85 @@ def copies(ctx):
     page is copied next to the page (top level and sub-directory); entries that do not exist are reported and do not stop the others"""
     from fv.props import c19
     c19.writeout_obligation(ctx, "copies")
+
+
+# ---------------------------------------------------------------------------------------
+# O3: |page| / |media| / |url| aliases and the relative links made from them are right from every nesting depth, in whatever order
+# the pages are converted by the one shared Markdown object
+# ---------------------------------------------------------------------------------------
+DEPTH_DIRS = ["", "sub", "sub/deep"]
+ALIAS_LINKS = [("[z](|page|/zeta.html)", "page/zeta.html"), ("![p](|media|/pic.png)", "media/pic.png"), ("[i](|url|/index.html)", "index.html"),
+               ("[s](|page|/sub/index.html)", "page/sub/index.html")]
+
+
+def _convert_pages(order, link_idx):
+    """real MetaMarkdown built as ford.main builds it; pages converted in the given order of depths; {depth: href/src found}"""
+    import re as _re2
+    import pathlib as _pl
+    from ford._markdown import MetaMarkdown
+
+    out_dir = _pl.Path("/proj/doc")
+    url_path = out_dir
+    md = MetaMarkdown(".", base_url=out_dir, aliases={"url": str(url_path), "media": str(url_path / "media"), "page": str(url_path / "page")}, project=None)
+    got = {}
+    for dpt in order:
+        page_path = out_dir / "page" / DEPTH_DIRS[dpt]
+        html = md.reset().convert("Text " + ALIAS_LINKS[link_idx[dpt]][0] + " more.", path=page_path)
+        m = _re2.search(r"""(?:href|src)=["']([^"']*)["']""", html)
+        got[dpt] = m.group(1) if m else None
+    return got
+
+
+def _alias_expected(dpt, li):
+    import os
+    return os.path.relpath(os.path.join("/proj/doc", ALIAS_LINKS[li][1]), os.path.join("/proj/doc/page", DEPTH_DIRS[dpt]))
+
+
+def replay_alias(w):
+    got = _convert_pages(w["order"], w["links"])
+    want = {d: _alias_expected(d, w["links"][d]) for d in w["order"]}
+    return {str(k): v for k, v in got.items()} != {str(k): v for k, v in want.items()}, {
+        "conversion order (nesting depths)": w["order"], "link written on each page": [ALIAS_LINKS[i][0] for i in w["links"]],
+        "ford": got, "relative path from each page": want}
+
+
+@obligation("C17", "O3.alias-links-from-every-depth", engine="SX(CV)", timeout=600)
+def alias_links(ctx):
+    """three static pages at nesting depths 0, 1, 2 converted by ONE Markdown object in a symbolic order, each with a symbolic alias link
+    (|page|, |media|, |url|; the same text may repeat): every href/src is the relative path from THAT page"""
+    import ford._markdown as mk
+
+    ctx.encode_fn(mk.RelativeLinksTreeProcessor._fix_attrib)
+    ctx.encode_fn(mk.RelativeLinksTreeProcessor.run)
+    ctx.encode_fn(mk.MetaMarkdown.convert)
+    ctx.bounds.update({"depths": DEPTH_DIRS, "alias links": [a for a, _ in ALIAS_LINKS], "orders": 6})
+    ctx.stubs.append("python-markdown needs concrete text: one path per (order, links) combination; MetaMarkdown is the real object")
+    import itertools
+    orders = [list(p) for p in itertools.permutations(range(3))]
+
+    def h(E):
+        oi = CV.choice(E, "order", list(range(len(orders)))).concretize()
+        same = CV.choice(E, "same_link", [True, False]).concretize()
+        l0 = CV.choice(E, "l0", list(range(len(ALIAS_LINKS)))).concretize()
+        links = [l0, l0, l0] if same else [l0, (l0 + 1) % len(ALIAS_LINKS), (l0 + 2) % len(ALIAS_LINKS)]
+        E.e.snapshot = lambda m: {"order": orders[oi], "links": links}
+        from fv import patch as _p
+        with _p.suspended():
+            got = _convert_pages(orders[oi], links)
+        E.reachable("converted")
+        for d in orders[oi]:
+            E.require(got[d] == _alias_expected(d, links[d]), f"depth {d}: alias link is not the relative path from that page")
+
+    E = sym.Engine(ctx, max_paths=500, incremental=True)
+    found = E.explore(h)
+    seen = set()
+    for (label, m, pc), snap in zip(found, E.snapshots):
+        if label in seen or not snap:
+            continue
+        seen.add(label)
+        ctx.report(label, snap, replay_alias)
+    if E.reached.get("converted"):
+        ctx.twins += 1
+    else:
+        ctx.inconclusive.append("vacuity: nothing converted")
+    ctx.sample({"paths": E.paths})
